@@ -79,6 +79,16 @@ func (e *Env) editParent(which int) string {
 			// back to the template the rollout started from (a rollback)
 			spec["template"].(map[string]any)["v"] = "v1"
 			desc = "template.v=v1 (rollback)"
+		case 6:
+			// a purely additive change of a revisioned field (a key appears), or its removal
+			tpl := spec["template"].(map[string]any)
+			if _, has := tpl["extra"]; has {
+				delete(tpl, "extra")
+				desc = "template.extra removed"
+			} else {
+				tpl["extra"] = "x"
+				desc = "template.extra=x (additive)"
+			}
 		}
 	})
 	return desc
@@ -137,10 +147,16 @@ func PropC07(c *vs.Case, f Factory, o RolloutOpts) error {
 	for s := 0; s < o.Steps; s++ {
 		// parent edit
 		editW := []int{3, 3, 2}
+		editN := []int{0, 1, 2}
 		if o.Scale {
 			editW = append(editW, 1, 1)
+			editN = append(editN, 3, 4)
 		}
-		if which := c.Weighted(editW...); which > 0 {
+		if !o.Small {
+			editW = append(editW, 1) // additive template change
+			editN = append(editN, 6)
+		}
+		if which := editN[c.Weighted(editW...)]; which > 0 {
 			log = append(log, "edit "+env.editParent(which))
 			c.Class("edit-%d", which)
 		}
@@ -278,7 +294,12 @@ func PropC08(c *vs.Case, f Factory, o RolloutOpts) error {
 	changes := 1 + c.Int(2)
 	mid := c.Int(3)
 	n := len(env.ownedWidgets())
-	log = append(log, "edit "+env.editParent(1))
+	first := 1
+	if !o.Small && c.Prob(1, 4) {
+		first = 6
+		c.Class("additive-change")
+	}
+	log = append(log, "edit "+env.editParent(first))
 	if changes == 2 {
 		c.Class("second-change-mid-rollout")
 	}
@@ -294,6 +315,8 @@ func PropC08(c *vs.Case, f Factory, o RolloutOpts) error {
 		} else if c.Prob(1, 3) {
 			which = 5
 			c.Class("rollback-mid-rollout")
+		} else if !o.Small && c.Prob(1, 4) {
+			which = 6
 		}
 		log = append(log, "edit "+env.editParent(which))
 	}
